@@ -1,5 +1,5 @@
 """Replay files, witness search and native replay against the real code built from /repo's current tree."""
-import os, json, hashlib, subprocess, time, shutil, tempfile, re
+import os, sys, json, hashlib, subprocess, time, shutil, tempfile, re
 
 ROOT = os.path.dirname(os.path.dirname(os.path.abspath(__file__)))
 SCRATCH = '/var/tmp/sqfvm-verif-replay'
@@ -9,7 +9,23 @@ DRIVERS = {
     'sqf_tokenizer': {'src': 'replay/drivers/sqf_tokenizer.cpp', 'flags': [], 'search_arg': '4'},
     'config_tokenizer': {'src': 'replay/drivers/sqf_tokenizer.cpp', 'flags': ['-DCONFIG_TOK'], 'search_arg': '4'},
     'pbofile': {'src': 'replay/drivers/pbofile.cpp', 'flags': [], 'search_arg': '0'},
+    'call_binary': {'vm': 'call_binary'},
 }
+
+_vm_build = None
+def build_sqfvm():
+    """builds sqfvm from /repo's current tree in a scratch directory (removed at exit); returns the binary or None"""
+    global _vm_build
+    if _vm_build is not None: return _vm_build
+    import atexit
+    d = os.path.join('/var/tmp', 'sqfvm-verif-build-%d' % os.getpid())
+    shutil.rmtree(d, ignore_errors=True)
+    atexit.register(lambda: shutil.rmtree(d, ignore_errors=True))
+    p = subprocess.run('cmake -G Ninja -S /repo -B %s -DCMAKE_BUILD_TYPE=RelWithDebInfo >/dev/null 2>&1 && cmake --build %s --target sqfvm -j16 2>&1 | tail -3' % (d, d),
+                       shell=True, capture_output=True, timeout=1500)
+    exe = os.path.join(d, 'sqfvm')
+    _vm_build = exe if os.path.exists(exe) else ''
+    return _vm_build
 
 def build_driver(unit):
     d = DRIVERS.get(unit)
@@ -49,7 +65,19 @@ def make_replay(pid, r, o, tier):
            'note': 'obligation that is discharged on the unchanged tree and fails on this tree'}
     if o.get('static'): rec['static_fact'] = o['static']
     reproduced = False
-    if r is not None and r.unit in DRIVERS:
+    if r is not None and r.unit in DRIVERS and 'vm' in DRIVERS[r.unit]:
+        import importlib
+        sys.path.insert(0, os.path.join(ROOT, 'replay', 'vm'))
+        exe = build_sqfvm()
+        if not exe:
+            rec['native'] = 'sqfvm could not be built from the current tree'
+        else:
+            mod = importlib.import_module(DRIVERS[r.unit]['vm'])
+            found, detail, inp = mod.search(exe)
+            rec['native'] = {'driver': 'replay/vm/%s.py' % DRIVERS[r.unit]['vm'], 'mode': 'VM-level witness search on sqfvm built from the current tree', 'detail': detail}
+            if found:
+                reproduced = True; rec['failing_input'] = inp; rec['replay_cmd'] = './check %s --replay %s' % (pid, path)
+    elif r is not None and r.unit in DRIVERS:
         exe, why = build_driver(r.unit)
         if exe is None:
             rec['native'] = why
@@ -86,6 +114,15 @@ def replay_file(path):
         print(p.stderr.decode('utf-8', 'replace')[:2000])
         print('driver exit code %d (0 = the real code handles this input)' % p.returncode)
         return 1 if p.returncode != 0 else 0
+    if rec.get('unit') in DRIVERS and 'vm' in DRIVERS[rec['unit']]:
+        import importlib
+        sys.path.insert(0, os.path.join(ROOT, 'replay', 'vm'))
+        exe = build_sqfvm()
+        if not exe:
+            print('sqfvm could not be built'); return 2
+        found, detail, inp = importlib.import_module(DRIVERS[rec['unit']]['vm']).search(exe)
+        print(detail); print('reproduced on the real code' if found else 'not reproduced on this tree')
+        return 1 if found else 0
     print('no failing input recorded; verifier output:')
     for s in rec.get('verifier_output', [])[-30:]: print('  ', s)
     return 1
